@@ -15,6 +15,9 @@ import (
 	"strings"
 	"time"
 
+	"context"
+
+	"github.com/luraproject/lura/v2/async"
 	"github.com/luraproject/lura/v2/config"
 	"github.com/luraproject/lura/v2/encoding"
 	"github.com/luraproject/lura/v2/logging"
@@ -63,7 +66,35 @@ type mEndpoint struct {
 	Extra    map[string]interface{} `json:"extra_config"`
 }
 
+type mAgent struct {
+	Name       string `json:"name"`
+	Connection struct {
+		MaxRetries      int    `json:"max_retries"`
+		BackoffStrategy string `json:"backoff_strategy"`
+		HealthInterval  string `json:"health_interval"`
+	} `json:"connection"`
+	Consumer struct {
+		Timeout string  `json:"timeout"`
+		Workers int     `json:"workers"`
+		Topic   string  `json:"topic"`
+		MaxRate float64 `json:"max_rate"`
+	} `json:"consumer"`
+	Encoding string                 `json:"encoding"`
+	Backend  []*mBackend            `json:"backend"`
+	Extra    map[string]interface{} `json:"extra_config"`
+}
+
+func (a *mAgent) coq() string {
+	bs := make([]string, len(a.Backend))
+	for i, b := range a.Backend {
+		bs[i] = b.coq()
+	}
+	return rec(f("a_name", emit.Str(a.Name)), f("a_timeout", emit.Z(dur(a.Consumer.Timeout))), f("a_workers", emit.Z(int64(a.Consumer.Workers))),
+		f("a_health", emit.Z(dur(a.Connection.HealthInterval))), f("a_backends", emit.List(bs)), f("a_extra", obj(a.Extra)))
+}
+
 type mSvc struct {
+	Agents    []*mAgent    `json:"async_agent"`
 	Version   int          `json:"version"`
 	Address   string       `json:"listen_ip"`
 	Host      []string     `json:"host"`
@@ -117,10 +148,26 @@ func (s *mSvc) coq() string {
 	for i, e := range s.Endpoints {
 		es[i] = e.coq()
 	}
+	ags := make([]string, len(s.Agents))
+	for i, a := range s.Agents {
+		ags[i] = a.coq()
+	}
 	bad := s.Address != "" && net.ParseIP(s.Address) == nil
 	return rec(f("s_version", emit.Z(int64(s.Version))), f("s_bad_addr", emit.Bool(bad)), f("s_host", emit.StrList(s.Host)),
 		f("s_timeout", emit.Z(dur(s.Timeout))), f("s_cache", emit.Z(dur(s.CacheTTL))), f("s_enc", emit.Str(s.Encoding)),
-		f("s_norest", emit.Bool(s.NoREST)), f("s_endpoints", emit.List(es)))
+		f("s_norest", emit.Bool(s.NoREST)), f("s_endpoints", emit.List(es)), f("s_agents", emit.List(ags)))
+}
+
+// every backend of the configuration: the endpoints' and the async agents'
+func (s *mSvc) backends() []*mBackend {
+	var bs []*mBackend
+	for _, e := range s.Endpoints {
+		bs = append(bs, e.Backend...)
+	}
+	for _, a := range s.Agents {
+		bs = append(bs, a.Backend...)
+	}
+	return bs
 }
 
 // ---- observation ----
@@ -192,6 +239,46 @@ func run(data []byte) (o observed) {
 		k := errKind(err.Error())
 		return observed{kind: "err", errKind: k, text: err.Error(), term: "OErr", js: map[string]interface{}{"outcome": "error", "error_kind": k, "error": err.Error()}}
 	}
+	backendObs := func(list []*config.Backend) ([]string, []interface{}) {
+		var bs []string
+		var bjs []interface{}
+		for _, b := range list {
+			bs = append(bs, rec(f("ob_host", emit.StrList(b.Host)), f("ob_method", emit.Str(b.Method)), f("ob_url", emit.Str(b.URLPattern)),
+				f("ob_keys", emit.StrList(b.URLKeys)), f("ob_dec", decName(b.Decoder)), f("ob_timeout", emit.Z(int64(b.Timeout))),
+				f("ob_cc", emit.Z(int64(b.ConcurrentCalls))), f("ob_hdrs", emit.StrList(b.HeadersToPass))))
+			bjs = append(bjs, map[string]interface{}{"host": b.Host, "method": b.Method, "url_pattern": b.URLPattern, "url_keys": b.URLKeys,
+				"decoder": decName(b.Decoder), "timeout_ns": int64(b.Timeout), "concurrent_calls": b.ConcurrentCalls, "input_headers": b.HeadersToPass})
+		}
+		return bs, bjs
+	}
+	// async agents: the real AgentStarter.Start builds each agent's pipe from a synthetic endpoint
+	// through the proxy factory it is given; ours is the default factory under recover()
+	var aks, akTexts []string
+	pf := proxy.FactoryFunc(func(e *config.EndpointConfig) (proxy.Proxy, error) {
+		k, text := factory(e)
+		aks = append(aks, k)
+		akTexts = append(akTexts, text)
+		if k != "KOk" {
+			return nil, fmt.Errorf("%s", text)
+		}
+		return proxy.NoopProxy, nil
+	})
+	if len(cfg.AsyncAgents) > 0 {
+		async.AgentStarter{func(context.Context, async.Options) bool { return true }}.Start(context.Background(), cfg.AsyncAgents, logging.NoOp, make(chan string, len(cfg.AsyncAgents)+1), pf)
+	}
+	var as []string
+	var ajs []interface{}
+	for i, a := range cfg.AsyncAgents {
+		k, text := "KErr (* pipe not built *)", "not built"
+		if i < len(aks) {
+			k, text = aks[i], akTexts[i]
+		}
+		bs, bjs := backendObs(a.Backend)
+		as = append(as, rec(f("oa_timeout", emit.Z(int64(a.Consumer.Timeout))), f("oa_workers", emit.Z(int64(a.Consumer.Workers))),
+			f("oa_health", emit.Z(int64(a.Connection.HealthInterval))), f("oa_backends", emit.List(bs)), f("oa_factory", k)))
+		ajs = append(ajs, map[string]interface{}{"name": a.Name, "consumer_timeout_ns": int64(a.Consumer.Timeout), "workers": a.Consumer.Workers,
+			"health_interval_ns": int64(a.Connection.HealthInterval), "backends": bjs, "factory": text})
+	}
 	var es []string
 	var ejs []interface{}
 	for _, e := range cfg.Endpoints {
@@ -210,7 +297,7 @@ func run(data []byte) (o observed) {
 		ejs = append(ejs, map[string]interface{}{"endpoint": e.Endpoint, "method": e.Method, "timeout_ns": int64(e.Timeout), "concurrent_calls": e.ConcurrentCalls,
 			"input_headers": e.HeadersToPass, "backends": bjs, "factory": fkText})
 	}
-	return observed{kind: "ok", term: emit.App("OOk", emit.List(es)), js: map[string]interface{}{"outcome": "ok", "endpoints": ejs}}
+	return observed{kind: "ok", term: emit.App("OOk", emit.List(es), emit.List(as)), js: map[string]interface{}{"outcome": "ok", "endpoints": ejs, "async_agents": ajs}}
 }
 
 func factory(e *config.EndpointConfig) (k string, text string) {
@@ -272,7 +359,15 @@ func (g *gen) cfgCase(svc map[string]interface{}, stream string) {
 			}
 		}
 	}
-	nontrivial = nontrivial || placeholders
+	nontrivial = nontrivial || placeholders || len(m.Agents) > 0
+	for _, a := range m.Agents {
+		for _, b := range a.Backend {
+			for _, h := range b.Host {
+				hostSet[h] = true
+			}
+			lowSet[b.Encoding] = true
+		}
+	}
 	var hs []string
 	for h := range hostSet {
 		hs = append(hs, h)
@@ -303,8 +398,8 @@ func (g *gen) cfgCase(svc map[string]interface{}, stream string) {
 	}
 	// which query_path files os.ReadFile can read right now (the model's `readable`)
 	fileSet := map[string]bool{}
-	for _, e := range m.Endpoints {
-		for _, b := range e.Backend {
+	for _, bl := range [][]*mBackend{m.backends()} {
+		for _, b := range bl {
 			if sec, ok := b.Extra[nsGraphQL].(map[string]interface{}); ok {
 				if qp, ok := sec["query_path"].(string); ok && qp != "" {
 					if _, err := os.ReadFile(qp); err == nil {
@@ -347,6 +442,9 @@ func (g *gen) cfgCase(svc map[string]interface{}, stream string) {
 		g.w.Count("has:placeholders")
 	}
 	g.w.Count(fmt.Sprintf("endpoints:%d", len(m.Endpoints)))
+	if len(m.Agents) > 0 {
+		g.w.Count(fmt.Sprintf("agents:%d", len(m.Agents)))
+	}
 	g.w.Add(term, js, "", "cfg|"+string(data), nontrivial)
 }
 
@@ -541,6 +639,9 @@ func flatmapOps(r *rng.R) []interface{} {
 
 func extraBackend(r *rng.R, ill bool) map[string]interface{} {
 	e := map[string]interface{}{}
+	if r.Chance(1, 8) {
+		e[nsPlugin] = pluginSection(r)
+	}
 	if r.Chance(2, 5) {
 		e[nsGraphQL] = graphqlSection(r, ill && r.Bool())
 	}
@@ -567,6 +668,9 @@ func extraBackend(r *rng.R, ill bool) map[string]interface{} {
 
 func extraEndpoint(r *rng.R, ill bool) map[string]interface{} {
 	e := map[string]interface{}{}
+	if r.Chance(1, 8) {
+		e[nsPlugin] = pluginSection(r)
+	}
 	if r.Chance(3, 5) {
 		p := map[string]interface{}{}
 		maybe(r, p, "sequential", r.Bool())
@@ -607,6 +711,77 @@ func extraEndpoint(r *rng.R, ill bool) map[string]interface{} {
 var okPaths = []string{"/a", "/a/{id}", "/{id}/{Id}", "/a/{b}/{c-d}", "/a/{id}?x=/{q}", "/{a}/{b}", "/x/{id}/y", "/{a}/{b}/{c}", "/{_}", "/{a}/{A}"}
 var okURLs = []string{"/b", "/b/{id}", "/{Id}", "/{b}/{c-d}", "/{a}/{a}", "/{b}/{a}", "/x/{resp0_x}", "/{JWT.sub}/{id}", "b/{a}", "/{resp1_a.b}", "/{c}/{b}/{a}", "/{_}/x", "/{A}"}
 var okHosts = []string{"http://ok", "http://ok2", "h:80", "https://h.example:8443/", "127.0.0.1:8080"}
+
+const nsPlugin = "github.com/devopsfaith/krakend/proxy/plugin"
+
+// pluginSection: the modifier-plugin section of an endpoint or backend (no plugin is registered
+// in the harness: the middleware must fall back without touching the outcome)
+func pluginSection(r *rng.R) interface{} {
+	if r.Chance(1, 5) {
+		return anyValue(r)
+	}
+	names := []interface{}{"mod-a", "mod-b"}
+	if r.Bool() {
+		names = append(names, anyValue(r))
+	}
+	p := map[string]interface{}{"name": names}
+	if r.Chance(1, 3) {
+		p["name"] = anyValue(r)
+	}
+	maybe(r, p, "mod-a", map[string]interface{}{"k": "v"})
+	return p
+}
+
+// randomAgent: an async agent with 0..3 backends
+func randomAgent(r *rng.R, hp []string, valid bool, ill bool) map[string]interface{} {
+	a := map[string]interface{}{}
+	maybe(r, a, "name", pick(r, []string{"", "agent-1", "ü"}))
+	cons := map[string]interface{}{}
+	maybe(r, cons, "timeout", pick(r, durations))
+	maybe(r, cons, "workers", r.Intn(5)-1)
+	maybe(r, cons, "topic", "t")
+	maybe(r, cons, "max_rate", 0.5)
+	maybe(r, a, "consumer", cons)
+	conn := map[string]interface{}{}
+	maybe(r, conn, "health_interval", pick(r, durations))
+	maybe(r, conn, "max_retries", r.Intn(3))
+	maybe(r, conn, "backoff_strategy", pick(r, []string{"", "linear", "x"}))
+	maybe(r, a, "connection", conn)
+	maybe(r, a, "encoding", pick(r, encodings))
+	if r.Chance(1, 3) {
+		a["extra_config"] = extraEndpoint(r, ill)
+	}
+	nb := r.Intn(4)
+	if valid {
+		nb = 1 + r.Intn(3)
+	}
+	bs := []interface{}{}
+	for ; nb > 0; nb-- {
+		b := map[string]interface{}{"url_pattern": pick(r, []string{"/q", "q", "/q/{id}", "", "//x"})}
+		if r.Chance(3, 4) {
+			b["host"] = append(list(r, hp, 1), pick(r, okHosts))
+		} else if !valid && r.Bool() {
+			b["host"] = list(r, hp, 2)
+		}
+		maybe(r, b, "method", pick(r, methods))
+		maybe(r, b, "encoding", pick(r, encodings))
+		maybe(r, b, "is_collection", r.Bool())
+		maybe(r, b, "input_headers", list(r, headers, 2))
+		maybe(r, b, "allow", list(r, []string{"a", "a.b", ""}, 2))
+		if r.Chance(1, 6) {
+			b["disable_host_sanitize"] = r.Bool()
+		}
+		if r.Chance(1, 5) {
+			b["sd"] = pick(r, sds)
+		}
+		if r.Chance(1, 3) {
+			b["extra_config"] = extraBackend(r, ill)
+		}
+		bs = append(bs, b)
+	}
+	a["backend"] = bs
+	return a
+}
 
 func randomCfg(r *rng.R, valid bool, ill bool) map[string]interface{} {
 	pp, up, hp := paths, paths, hosts
@@ -690,6 +865,29 @@ func randomCfg(r *rng.R, valid bool, ill bool) map[string]interface{} {
 		eps = append(eps, ep)
 	}
 	svc["endpoints"] = eps
+	// async agents (Init handles them before the endpoints)
+	if r.Chance(1, 3) {
+		var ags []interface{}
+		for na := 1 + r.Intn(2); na > 0; na-- {
+			ags = append(ags, randomAgent(r, hp, valid, ill))
+		}
+		svc["async_agent"] = ags
+	}
+	// sections Init does not look at: they must not change the outcome
+	if r.Chance(1, 6) {
+		svc["plugin"] = map[string]interface{}{"folder": "/nonexistent/verif-c17/plugins/", "pattern": ".so"}
+	}
+	if r.Chance(1, 6) {
+		svc["tls"] = map[string]interface{}{"disabled": r.Bool(), "public_key": "/nonexistent/cert.pem", "private_key": "", "min_version": pick(r, []string{"", "TLS12", "x"}),
+			"cipher_suites": []interface{}{4865, 49199}, "enable_mtls": r.Bool(), "keys": []interface{}{map[string]interface{}{"public_key": "a", "private_key": "b"}}}
+	}
+	if r.Chance(1, 6) {
+		svc["client_tls"] = map[string]interface{}{"allow_insecure_connections": r.Bool(), "ca_certs": []interface{}{"/nonexistent/ca.pem"},
+			"client_certs": []interface{}{map[string]interface{}{"certificate": "c", "private_key": "k"}}}
+	}
+	if r.Chance(1, 8) {
+		svc["extra_config"] = map[string]interface{}{"github_com/devopsfaith/krakend-gologging": map[string]interface{}{"level": "DEBUG"}, nsPlugin: pluginSection(r)}
+	}
 	return svc
 }
 
@@ -892,6 +1090,16 @@ func main() {
 		one(ep("/a/{id}"), with(be("/g/{id}", "http://ok"), "extra_config", map[string]interface{}{nsGraphQL: map[string]interface{}{"type": "mutation", "query_path": filesDir + "/adir"}})),
 		one(ep("/a/{id}"), with(be("/g/{id}", "http://ok"), "extra_config", map[string]interface{}{nsGraphQL: map[string]interface{}{"type": "query", "query_path": filesDir + "/q.graphql", "variables": map[string]interface{}{"a": "{}", "b": ""}}})),
 		one(ep("/a/{id}"), with(be("/g/{id}", "http://ok"), "extra_config", map[string]interface{}{nsGraphQL: map[string]interface{}{"type": 5.0, "query": "{ q }"}}), with(be("/h", "http://ok"), "extra_config", map[string]interface{}{nsGraphQL: "not an object"})),
+		// async agents: defaults, invalid host, no host at all, dns without host, two backends with a bad combiner, graphql
+		{"version": 3, "host": []interface{}{"http://s"}, "async_agent": []interface{}{map[string]interface{}{"backend": []interface{}{be("/q"), be("q", "h:80")}}}},
+		{"version": 3, "async_agent": []interface{}{map[string]interface{}{"name": "a1", "consumer": map[string]interface{}{"timeout": "3s", "workers": 4}, "connection": map[string]interface{}{"health_interval": "100ms"}, "backend": []interface{}{be("/q", "h h")}}}},
+		{"version": 3, "async_agent": []interface{}{map[string]interface{}{"backend": []interface{}{with(be("/q", "h h"), "disable_host_sanitize", true)}}}},
+		{"version": 3, "async_agent": []interface{}{map[string]interface{}{"backend": []interface{}{be("/q")}}}},
+		{"version": 3, "async_agent": []interface{}{map[string]interface{}{"backend": []interface{}{with(be("/q"), "sd", "dns")}}}},
+		{"version": 3, "async_agent": []interface{}{map[string]interface{}{"backend": []interface{}{}}, map[string]interface{}{"consumer": map[string]interface{}{"timeout": "-1s", "workers": -2}, "backend": []interface{}{be("/q", "http://ok")}}}},
+		{"version": 3, "async_agent": []interface{}{map[string]interface{}{"extra_config": map[string]interface{}{nsProxy: map[string]interface{}{"combiner": 5.0}}, "backend": []interface{}{be("/q", "http://ok"), be("/r", "http://ok")}}}},
+		{"version": 3, "async_agent": []interface{}{map[string]interface{}{"backend": []interface{}{gqlBackend(map[string]interface{}{"a": "{}", "b": ""})}}}},
+		with(one(ep("/__debug"), be("/b", "http://ok")), "async_agent", []interface{}{map[string]interface{}{"backend": []interface{}{be("/q", "a b")}}}),
 		// a backend placeholder named like an allowed query string / header is NOT declared:
 		// the routers only put path params into Request.Params
 		one(with(ep("/s/{cat}"), "input_query_strings", []interface{}{"page"}), be("/s/{cat}/{page}", "http://ok")),
@@ -997,6 +1205,23 @@ func main() {
 			}
 		}
 	}
+	// (j) async agents: host pool x sanitiser switch x position (agent backend / service), and
+	// consumer timeout x service timeout x workers x health interval
+	for _, h := range hosts {
+		for _, ns := range []bool{false, true} {
+			g.cfgCase(map[string]interface{}{"version": 3, "async_agent": []interface{}{map[string]interface{}{"backend": []interface{}{with(be("/q", h), "disable_host_sanitize", ns)}}}}, "exhaustive:agents")
+		}
+		g.cfgCase(map[string]interface{}{"version": 3, "host": []interface{}{h}, "async_agent": []interface{}{map[string]interface{}{"backend": []interface{}{be("/q"), be("/r", "http://ok")}}}}, "exhaustive:agents")
+	}
+	for _, d1 := range durations {
+		for _, d2 := range []string{"", "0s", "1s", "-1s", "999ms", "1500ms"} {
+			for wk := -1; wk <= 2; wk++ {
+				g.cfgCase(map[string]interface{}{"version": 3, "timeout": d2, "async_agent": []interface{}{map[string]interface{}{
+					"consumer": map[string]interface{}{"timeout": d1, "workers": wk}, "connection": map[string]interface{}{"health_interval": d2},
+					"backend":  []interface{}{with(be("/q", "http://ok"), "encoding", encodings[(wk+1+len(d1))%len(encodings)])}}}}, "exhaustive:agents")
+			}
+		}
+	}
 	// (g) where a backend placeholder's name comes from: path params x input_query_strings x
 	// input_headers x placeholders of the backend pattern (0..2 names out of a b q z)
 	phs := [][]string{nil}
@@ -1098,6 +1323,6 @@ func main() {
 		}
 	}
 
-	g.w.Meta["compared"] = "outcome class (ok / error / panic) of Parse; per endpoint: method, timeout, concurrent_calls, input_headers, outcome class of DefaultFactory.New; per backend: hosts and url keys (as multisets), method, url_pattern, decoder, timeout, concurrent_calls, input_headers"
-	g.w.Close("corpus of past failures; exhaustive small scope (GraphQL variable values over {,},a up to length 3 (thorough 4); endpoint path x backend pattern x disable_rest over the path pool (quick: a seed-dependent half); host pool x sanitiser switch x position; output encodings x 0..3 backends; durations x durations x counts; versions -1..5; GraphQL options query_path {empty, readable file, missing file, directory, missing directory} x type x method x variables); scanners re-validated against the package's compiled regular expressions / textproto / x/text on the pools and on random strings; path params x input_query_strings x input_headers x backend placeholders over a b q z; two endpoints in every order; structured random configurations (40% from mostly-valid pools, 20% with backend placeholders drawn from the endpoint's path params / query strings / headers / other endpoints' params / fresh names, 30% any strings, 10% with ill-typed extra_config values); malformed JSON. nontrivial = rejected, or has a placeholder, or has an extra_config section", true)
+	g.w.Meta["compared"] = "outcome class (ok / error / panic) of Parse; per endpoint: method, timeout, concurrent_calls, input_headers, outcome class of DefaultFactory.New; per async agent: consumer timeout, workers, health interval, outcome class of the pipe built by AgentStarter.Start; per backend (endpoints' and agents'): hosts and url keys (as multisets), method, url_pattern, decoder, timeout, concurrent_calls, input_headers"
+	g.w.Close("corpus of past failures; exhaustive small scope (GraphQL variable values over {,},a up to length 3 (thorough 4); endpoint path x backend pattern x disable_rest over the path pool (quick: a seed-dependent half); host pool x sanitiser switch x position; output encodings x 0..3 backends; durations x durations x counts; versions -1..5; async agents: host pool x sanitiser switch x position, consumer timeout x service timeout x workers x health interval; GraphQL options query_path {empty, readable file, missing file, directory, missing directory} x type x method x variables); scanners re-validated against the package's compiled regular expressions / textproto / x/text on the pools and on random strings; path params x input_query_strings x input_headers x backend placeholders over a b q z; two endpoints in every order; structured random configurations (40% from mostly-valid pools, 20% with backend placeholders drawn from the endpoint's path params / query strings / headers / other endpoints' params / fresh names, 30% any strings, 10% with ill-typed extra_config values); malformed JSON. A third of the random configurations carry 1..2 async agents (pipes built through the real AgentStarter.Start with the default factory); plugin / tls / client_tls / modifier-plugin sections are sprinkled over the random stream. nontrivial = rejected, or has a placeholder, or has an extra_config section", true)
 }
